@@ -298,6 +298,12 @@ func (se *symEval) instr(x ssa.Value, st *sstate) sval {
 			if strings.HasPrefix(a.e, "ADDR:") {
 				return se.load(a.e[5:], st)
 			}
+			if strings.HasPrefix(a.e, "GLOBAL:") {
+				if v, ok := st.heap[a.e]; ok {
+					return v
+				}
+				return sv(a.e) // the value of a package-level variable, named after it
+			}
 			return sv("UNK:load")
 		case token.NOT:
 			v := se.val(i.X, st)
@@ -360,7 +366,7 @@ func (se *symEval) instr(x ssa.Value, st *sstate) sval {
 		return sv(se.n("SLICE(" + b.e + "," + part(i.Low) + "," + part(i.High) + ")"))
 	case *ssa.BinOp:
 		a, b := se.val(i.X, st), se.val(i.Y, st)
-		op := map[token.Token]string{token.ADD: "ADD", token.SUB: "SUB", token.EQL: "EQ", token.NEQ: "NE", token.LSS: "LT", token.LEQ: "LE", token.GTR: "GT", token.GEQ: "GE"}[i.Op]
+		op := map[token.Token]string{token.ADD: "ADD", token.SUB: "SUB", token.EQL: "EQ", token.NEQ: "NE", token.LSS: "LT", token.LEQ: "LE", token.GTR: "GT", token.GEQ: "GE", token.AND: "AND", token.SHL: "SHL", token.OR: "OR"}[i.Op]
 		if op == "" {
 			return sv("UNK:binop")
 		}
@@ -398,11 +404,11 @@ func (se *symEval) instr(x ssa.Value, st *sstate) sval {
 		e := se.n(op + "(" + a.e + "," + b.e + ")")
 		switch se.truthOf(sv(e)) {
 		case 1:
-			if op != "ADD" && op != "SUB" {
+			if op != "ADD" && op != "SUB" && op != "AND" && op != "SHL" && op != "OR" {
 				return sv("CONST:true")
 			}
 		case -1:
-			if op != "ADD" && op != "SUB" {
+			if op != "ADD" && op != "SUB" && op != "AND" && op != "SHL" && op != "OR" {
 				return sv("CONST:false")
 			}
 		}
